@@ -805,7 +805,7 @@ def c01_phase2(items, impl, model, rng, tier) -> List[Item]:
             p2["ops"].append({"op": "evaluate", "n": n, "o": o})
             p2["ops"].append({"op": "evaluate", "n": n, "o": o, "cache_off": True})
             pairs.append((len(p2["ops"]) - 2, len(p2["ops"]) - 1))
-        out.append((p2, {"pairs": pairs, "phase": 2}))
+        out.append((p2, dict({"pairs": pairs, "phase": 2}, **({"no_model": True} if meta.get("no_model") else {}))))
     return out
 
 
@@ -1411,7 +1411,7 @@ def c03_phase2(items, impl, model, rng, tier) -> List[Item]:
                 chk["perturbed"].append({"keys": b3 + 1, "eval": b3 + 2, "fp": b3 + 4, "o": o3, "mode": mode})
             checks.append(chk)
         if checks:
-            out.append((p2, dict({"c03": checks, "phase": 2}, **({"classify_off": True} if meta.get("classify_off") else {}))))
+            out.append((p2, dict({"c03": checks, "phase": 2}, **{k: True for k in ("classify_off", "no_model") if meta.get(k)})))
     return out
 
 
